@@ -477,14 +477,13 @@ def oracle_c10(cases, impl, model):
         parts = c.get("parts")
         if not parts:
             continue
-        a, b = parts
-        if any(impl[x].error or impl[x].end != "done" for x in (k, a, b)):
+        if any(impl[x].error or impl[x].end != "done" for x in (k,) + tuple(parts)):
             continue
         comb = bag_of(seq_of(impl[k]))
-        sep = sorted(bag_of(seq_of(impl[a])) + bag_of(seq_of(impl[b])))
+        sep = sorted(sum((bag_of(seq_of(impl[x])) for x in parts), []))
         if comb != sep:
-            fails.append({"case_index": k, "what": "answers of conde{A,B} are not the union of the answers of A alone and B alone",
-                          "A_alone": impl[a].raw[:1500], "B_alone": impl[b].raw[:1500]})
+            fails.append({"case_index": k, "what": "answers of the disjunction are not the union of the answers of its branches run alone",
+                          "branches_alone": [impl[x].raw[:800] for x in parts]})
     return fails
 
 
@@ -533,6 +532,27 @@ def run_c10(tier, seed, replay=None):
         cases.append(mk_case([], ["q", "r", "t"][:len(vs)], prefix + [["cond", ["conj"] + A, ["conj"] + B]], parts=(k + 1, k + 2), mode="bag"))
         cases.append(mk_case([], ["q", "r", "t"][:len(vs)], prefix + A, mode="bag"))
         cases.append(mk_case([], ["q", "r", "t"][:len(vs)], prefix + B, mode="bag"))
+    # the public binary-disjunction API (Disj::new / from_vec / from_array / from_conjunctions), which conde does not go through:
+    # branches decided when the goal is built (a literal true, an empty clause, false) next to ordinary ones
+    for _ in range(n // 2):
+        g = P.Gen(rnd, allow=["eq", "eq", "neq", "member", "true", "false", "conj"], depth=1)
+        q = ["q", "r"]
+        prefix = [rnd.choice([["neq", "q", 2], ["eq", "r", 1], ["neq", ["list", "q", "r"], ["list", 1, 1]]])] if rnd.random() < 0.6 else []
+        variant = rnd.choice(["new", "vec", "array", "conjs"])
+        nb = 2 if variant == "new" else rnd.randint(2, 4)
+        branches = []
+        for _b in range(nb):
+            kind = rnd.random()
+            if kind < 0.3:
+                branches.append(["conj", "true"] if rnd.random() < 0.5 else ["conj"])
+            elif kind < 0.4:
+                branches.append(["conj", "false"])
+            else:
+                branches.append(["conj"] + [g.goal(list(q)) for _ in range(rnd.randint(1, 2))])
+        k = len(cases)
+        cases.append(mk_case([], q, prefix + [["disj", variant] + branches], parts=tuple(range(k + 1, k + 1 + nb)), mode="bag"))
+        for b in branches:
+            cases.append(mk_case([], q, prefix + [b], mode="bag"))
     return pcheck.run_check("C10", tier, seed, cases, "exact", oracle_c10, cone=CONE, replay=replay,
         rule="triples (prefix; conde{A,B}; suffix), (prefix; A; suffix), (prefix; B; suffix) over eq/neq/fresh/conde/member goals and over "
              "shared FD state (domains, distinctfd, ltefd/plusfd) updated in the branches; the combined answer multiset must be the union of "
